@@ -290,7 +290,7 @@ fn run_job(tab: &[Entry], job: &Job, prop: Prop, tier: Tier) -> JobOut {
                             observed: got.to_string(),
                             expected: exp.to_string(),
                             note: format!("exact={}", ex),
-                            kf: classify_kf(l, op, a, b, &ex),
+                            kf: classify_kf_observed(l, op, a, b, &ex, &got),
                         });
                     }
                 }
@@ -452,7 +452,7 @@ fn cmd_replay(args: &[String]) -> i32 {
     } else {
         let b = parse_hex(&args[3]);
         let ex = exact_bin(l, op.base, a, b);
-        (subject(|| (e.bin)(i, a, b)).unwrap_or(Out::Panic), ex, classify_kf(l, op, a, b, &ex))
+        { let g = subject(|| (e.bin)(i, a, b)).unwrap_or(Out::Panic); (g, ex, classify_kf_observed(l, op, a, b, &ex, &g)) }
     };
     let exp = expect(l, op.form, &ex, false);
     println!("profile:  {}", vcore::profile_name());
